@@ -6983,6 +6983,95 @@ let unmarshal_json = function
          | _ -> None)
       | _ -> None))
 
+type edump = { d_ents : ent list; d_next : nat; d_avail : nat }
+
+(** val pool_dump : pool -> edump **)
+
+let pool_dump p0 =
+  { d_ents = p0.pe; d_next = p0.pnext; d_avail = p0.pavail }
+
+(** val pool_load : pool -> edump -> pool option **)
+
+let pool_load t d =
+  if (||) (Nat.ltb reserved (length t.pe)) (Nat.ltb O t.pavail)
+  then None
+  else if Nat.ltb O (length d.d_ents)
+       then Some { pe = d.d_ents; pnext = d.d_next; pavail = d.d_avail }
+       else Some t
+
+(** val pstep : (pool * ent list) -> (z * z) -> pool * ent list **)
+
+let pstep st o =
+  let (p0, iss) = st in
+  (match fst o with
+   | Z0 -> let (e, p') = pool_get p0 in (p', (app iss (e :: [])))
+   | Zpos p1 ->
+     (match p1 with
+      | XH ->
+        (match nth_error iss (Z.to_nat (snd o)) with
+         | Some e ->
+           if pool_alive p0 e
+           then (match pool_recycle p0 e with
+                 | Some p' -> (p', iss)
+                 | None -> (p0, iss))
+           else (p0, iss)
+         | None -> (p0, iss))
+      | _ -> ((pool_reset p0), []))
+   | Zneg _ -> ((pool_reset p0), []))
+
+(** val prun : (z * z) list -> pool * ent list **)
+
+let prun ops =
+  fold_left pstep ops (pool_new, [])
+
+(** val zpairs : z list -> (z * z) list **)
+
+let rec zpairs = function
+| [] -> []
+| a :: l0 -> (match l0 with
+              | [] -> []
+              | b :: r -> (a, b) :: (zpairs r))
+
+(** val pgets : nat -> pool -> ent list **)
+
+let rec pgets n0 p0 =
+  match n0 with
+  | O -> []
+  | S n' -> let (e, p') = pool_get p0 in e :: (pgets n' p')
+
+(** val b2z : bool -> z **)
+
+let b2z = function
+| true -> Zpos XH
+| false -> Z0
+
+(** val ent2z : ent -> z list **)
+
+let ent2z e =
+  (Z.of_nat (fst e)) :: ((Z.of_N (snd e)) :: [])
+
+(** val dumpload_case : z list -> z list **)
+
+let dumpload_case = function
+| [] -> (Zneg XH) :: []
+| n0 :: l0 ->
+  (match l0 with
+   | [] -> (Zneg XH) :: []
+   | ls :: rest ->
+     let k = mul (S (S O)) (Z.to_nat ls) in
+     let (src, iss) = prun (zpairs (firstn k rest)) in
+     let (tgt, _) = prun (zpairs (skipn k rest)) in
+     let d = pool_dump src in
+     let rej = match pool_load tgt d with
+               | Some _ -> Z0
+               | None -> Zpos XH in
+     (match pool_load (pool_reset tgt) d with
+      | Some q ->
+        rej :: ((Zpos
+          XH) :: (app (map (fun e -> b2z (pool_alive q e)) iss)
+                   (flat_map ent2z (pgets (Z.to_nat n0) q))))
+      | None -> rej :: (Z0 :: [])))
+
 (** val row_ent : table -> nat -> ent **)
 
 let row_ent t r =
